@@ -167,7 +167,7 @@ End Real.
 
 (* ---- non-vacuity: the tree of TreeStage.v, switch on and /s/x = 9 (the array at its default):
    the saved body is "/e true\n/s/x 9\n", both lines inside the fragment ----------------------- *)
-Definition fx_state2 : state := [[SaveModel.VT true]; [SaveModel.VI 9]; [SaveModel.VI 1; SaveModel.VI 1; SaveModel.VI 1]].
+Definition fx_state2 : state := [[SaveModel.VT true]; [SaveModel.VI 9]; [SaveModel.VI 1; SaveModel.VI 1; SaveModel.VI 1]; [SaveModel.VI 8]].
 
 Lemma fx_full2 : full_conditions fx_tapp fx_state2.
 Proof.
@@ -194,7 +194,7 @@ Proof.
   split.
   { intros i Hi. three i; split; unfold value_comparable; repeat constructor. }
   split.
-  { intros i x Hx. destruct i as [|[|[|i]]]; simpl in Hx;
+  { intros i x Hx. destruct i as [|[|[|[|i]]]]; simpl in Hx;
       repeat (destruct Hx as [Hx|Hx]; [subst x; exact I|]); try contradiction.
     unfold val_at in Hx. destruct i; simpl in Hx; contradiction. }
   split; [apply DeclProofs.declared_b_sound; vm_compute; reflexivity|].
